@@ -83,7 +83,7 @@ def verify_unit(uname, extra=(), want_vac=True, tag=""):
             vunit.gen_path = os.path.join(BUILD, crate + "_vac.rs")
             with open(vunit.gen_path, "w") as f:
                 f.write(vunit.text())
-            jobs["vac"] = ex.submit(verus.run_verus, vunit.gen_path, ["--multiple-errors", "1", "--rlimit", str(unit.rlimit)])
+            jobs["vac"] = ex.submit(verus.run_verus, vunit.gen_path, ["--multiple-errors", "1", "--rlimit", str(max(2, unit.rlimit // 4))])
         res = {k: v.result() for k, v in jobs.items()}
     main = res["main"]
     summ = verus.summarize(main)
